@@ -454,7 +454,7 @@ def thorough_variants():
         V("array/t3", "array", [0x0, 0x4], [(A, F), (B, L)], 2, max_states=big),
         V("memword/t5", "memword", [0x0], ALL8, 2, max_states=big),
         V("fields/t5", "fields", [0x0, 0x8], [(A, F), (B, F)], 2, HW_FIXED, max_states=big),
-        V("fields/t6", "fields", [0x0, 0x8, 0x4], [(A, F), (B, L), (A, M), (B, Z)], 1, max_states=big),
+        V("fields/t6", "fields", [0x0, 0x8, 0x4], [(A, F), (B, L), (A, M), (B, Z)], 1, HW_IN_ONLY, max_states=big),
         V("range/t1", "range", [0x8, 0xC], [(A, F), (B, M)], 2, max_states=big),
         V("range/t2", "range", [0x0, 0x4, 0x8, 0xC], [(A, F), (B, L), (B, M)], 1, max_states=big),
         # L6 MemWord 0x0, two-word Memory at 0x4 (offset not a multiple of its size), MemWord 0xC
